@@ -5,11 +5,12 @@
 # run to or '-'), runs the quick check there and requires a violation. Prints SELFTEST lines; never changes the exit
 # status of the check (an undetected edit is a weakness of the contracts, not a violation by /repo). Adds the result to
 # evidence/<Cxx>.json under coverage.selftest.
-prop=$1
+name=$1
+prop=${name%%-*}   # selftest/C09-r2.tsv is a second corpus for the C09 check
 cd /verif || exit 0
-corpus=selftest/$prop.tsv
+corpus=selftest/$name.tsv
 [ -f $corpus ] || { echo "SELFTEST $prop: no corpus"; exit 0; }
-W=/tmp/verif-selftest-$prop-$$
+W=/tmp/verif-selftest-$name-$$
 rm -rf $W; mkdir -p $W/repo $W/verif
 rsync -a --exclude .git /repo/ $W/repo/
 cp known_findings.json $W/verif/
